@@ -188,8 +188,15 @@ func (h *Hist) addNode(gi int, cpu, mem int64, ago int64, member bool) *WNode {
 	h.instSeq++
 	id := fmt.Sprintf("i-%05d", h.instSeq)
 	az := h.r.pick("az-a", "az-b")
+	name := fmt.Sprintf("n%d", h.nodeSeq)
+	if len(h.goneNames) > 0 && h.r.chance(20) {
+		// the cloud hands the private address of a departed instance out again: a new node under an old name
+		k := h.r.intn(len(h.goneNames))
+		name = h.goneNames[k]
+		h.goneNames = append(h.goneNames[:k:k], h.goneNames[k+1:]...)
+	}
 	n := &WNode{
-		Name: fmt.Sprintf("n%d", h.nodeSeq), ProviderID: providerID(az, id),
+		Name: name, ProviderID: providerID(az, id), ZoneOffset: h.r.pickI(0, 0, 0, 0, 0, 0, -4*3600, -5*3600, 3600),
 		Labels: map[string]string{"grp": o.LabelValue, "other": "x"}, Annotations: map[string]string{},
 		CreatedAgo: ago, AllocCPU: cpu, AllocMem: mem, Extra: fmt.Sprintf("10.0.%d.0/24", h.nodeSeq%200),
 	}
@@ -278,8 +285,23 @@ func (h *Hist) setLoad(gi int, pct int, jitter int) {
 			if h.r.chance(80) {
 				p.NodeSelector = map[string]string{"grp": o.LabelValue}
 			} else {
-				p.Affinity = &v1.Affinity{NodeAffinity: &v1.NodeAffinity{RequiredDuringSchedulingIgnoredDuringExecution: &v1.NodeSelector{
-					NodeSelectorTerms: []v1.NodeSelectorTerm{{MatchExpressions: []v1.NodeSelectorRequirement{{Key: "grp", Operator: v1.NodeSelectorOpIn, Values: []string{"zz", o.LabelValue}}}}}}}}
+				other := "zz"
+				if len(h.cfgs) > 1 && h.r.chance(40) {
+					other = h.cfgs[h.r.intn(len(h.cfgs))].LabelValue // a pod that may run in two of the configured groups: it counts for both
+				}
+				in := func(vals ...string) v1.NodeSelectorRequirement {
+					return v1.NodeSelectorRequirement{Key: "grp", Operator: v1.NodeSelectorOpIn, Values: vals}
+				}
+				var terms []v1.NodeSelectorTerm
+				switch h.r.intn(4) {
+				case 0: // two alternative terms, the other group named first
+					terms = []v1.NodeSelectorTerm{{MatchExpressions: []v1.NodeSelectorRequirement{in(other)}}, {MatchExpressions: []v1.NodeSelectorRequirement{in(o.LabelValue)}}}
+				case 1: // one term with two expressions on the key
+					terms = []v1.NodeSelectorTerm{{MatchExpressions: []v1.NodeSelectorRequirement{in(other), in(o.LabelValue)}}}
+				default:
+					terms = []v1.NodeSelectorTerm{{MatchExpressions: []v1.NodeSelectorRequirement{in(other, o.LabelValue)}}}
+				}
+				p.Affinity = &v1.Affinity{NodeAffinity: &v1.NodeAffinity{RequiredDuringSchedulingIgnoredDuringExecution: &v1.NodeSelector{NodeSelectorTerms: terms}}}
 				p.NodeSelector = map[string]string{}
 				// node-selector terms are alternatives: further terms that say nothing about the group (empty, fields only,
 				// another key) change nothing, wherever they stand
@@ -505,6 +527,12 @@ func (h *Hist) randomEvent() string {
 	if focus == "rotate" && r.chance(70) {
 		ev = r.pickI(0, 1, 2, 3, 21, 10, 13) // mostly load changes across all bands, time, deliveries: keep the group at its minimum
 	}
+	if len(h.cfgs) > 1 && r.chance(2) {
+		// a cloud group is deleted out of band (or comes back): DescribeAutoScalingGroups simply leaves it out
+		g := h.aws.asgs[o.CloudProviderGroupName]
+		g.Gone = !g.Gone
+		return "asg-gone-or-back"
+	}
 	if r.chance(2) && len(h.api) > 0 {
 		// every Node object of the cluster is gone (the instances are still in their cloud groups): all listings are empty
 		h.api = nil
@@ -688,7 +716,7 @@ func (h *Hist) randomEvent() string {
 			return "foreign-node"
 		case 1: // odd provider ids
 			n := h.addNode(gi, cpu, mem, 0, false)
-			n.ProviderID = r.pick("", "aws:///az-a", "garbage", "a/b/c/d", "aws:///az-a/i-x/extra")
+			n.ProviderID = r.pick("", "aws:///az-a", "garbage", "a/b/c/d", "aws:///az-a/i-x/extra", "aws:////i-0abc", "aws:///az-a/", "aws:////", "////", "aws:///i-0abc")
 			return "odd-provider-id"
 		case 2:
 			n := h.addNode(gi, cpu, mem, 0, true)
